@@ -214,6 +214,10 @@ func (e *ExecutionConfig) setProposerSpecificOptions(ctx context.Context,
 
 	// Work through the proposer-specific configurations to see if one matches.
 	for _, proposerConfig := range e.Proposers {
+		if proposerConfig == nil {
+			// A null entry in the list of proposers configures nothing.
+			continue
+		}
 		var match bool
 		switch {
 		case proposerConfig.Account != nil:
